@@ -1,6 +1,7 @@
 package clisim
 
 import (
+	"bytes"
 	"fmt"
 	"os"
 	"path/filepath"
@@ -239,6 +240,8 @@ func C06CLI(r *simkit.Run) {
 			b := append([]byte(nil), m[n]...)
 			if len(b) == 0 {
 				b = []byte("x")
+			} else if k := bytes.IndexByte(b, '\n'); k >= 0 && t.Chance("insert-carriage-return", 1, 4) {
+				b = append(b[:k], append([]byte{'\r'}, b[k:]...)...)
 			} else {
 				b[t.Draw("byte-pos", len(b))] ^= 0x01
 			}
